@@ -4,5 +4,5 @@ From Coq Require Import Extraction ExtrOcamlBasic.
 From CgnsV Require Import ElemSplice.
 Extraction Language OCaml.
 Set Extraction KeepSingleton.
-Extraction "extracted/c10/model.ml" ElemSplice.step_gen ElemSplice.impl_pvariant ElemSplice.undef
+Extraction "extracted/c10/model.ml" ElemSplice.step_gen ElemSplice.impl_pvariant ElemSplice.impl_rvariant ElemSplice.undef
   ElemSplice.npe_table ElemSplice.cg_npe.
